@@ -245,6 +245,15 @@ func (p *ProposeCtx) domain(dt common.BLSDomainType, e common.Epoch) common.BLSD
 	return d
 }
 
+// lastForkEpoch is state.fork.epoch of the advanced state (0 before the first fork).
+func (p *ProposeCtx) lastForkEpoch() common.Epoch {
+	fk, err := p.A.Fork()
+	if err != nil {
+		panic(err)
+	}
+	return fk.Epoch
+}
+
 func (c *Chain) keyOfVal(v common.ValidatorIndex) KeyNum {
 	if int(v) >= len(c.Vals) {
 		panic(fmt.Sprintf("no key known for validator %d", v))
@@ -281,7 +290,15 @@ func (p *ProposeCtx) AddProposerSlashing(v common.ValidatorIndex) bool {
 		return false
 	}
 	p.removed++
-	ps := c.makeProposerSlashing(p, v, p.Slot-common.Slot(c.Rng.Intn(int(min64(uint64(p.Slot), 3))+1)))
+	hslot := p.Slot - common.Slot(c.Rng.Intn(int(min64(uint64(p.Slot), 3))+1))
+	if fe := p.lastForkEpoch(); fe > 0 && p.Epoch <= fe+1 && c.Rng.Chance(60) {
+		// headers from before the last fork: their domain is the PREVIOUS fork version
+		hslot = common.Slot(fe)*c.Spec.SLOTS_PER_EPOCH - 1 - common.Slot(c.Rng.Intn(int(c.Spec.SLOTS_PER_EPOCH)))
+	}
+	if fe := p.lastForkEpoch(); c.Spec.SlotToEpoch(hslot) < fe {
+		p.Ops["pslash_pre_fork_headers"]++
+	}
+	ps := c.makeProposerSlashing(p, v, hslot)
 	p.B.ProposerSlashings = append(p.B.ProposerSlashings, ps)
 	p.used[v] = true
 	p.Flats[v].Slashed = true
@@ -402,6 +419,12 @@ func (p *ProposeCtx) AddExit(v common.ValidatorIndex) bool {
 	ep := p.Epoch
 	if ep > 0 && c.Rng.Chance(30) {
 		ep -= common.Epoch(c.Rng.Intn(int(min64(uint64(ep), 2)) + 1))
+	}
+	if fe := p.lastForkEpoch(); fe > 0 && p.Epoch <= fe+1 && c.Rng.Chance(60) {
+		ep = fe - 1 // an exit signed for an epoch before the last fork (pre-deneb: domain of the previous version)
+	}
+	if ep < p.lastForkEpoch() {
+		p.Ops["exit_pre_fork_epoch"]++
 	}
 	p.B.VoluntaryExits = append(p.B.VoluntaryExits, c.makeExit(p, v, ep))
 	p.used[v] = true
@@ -529,6 +552,9 @@ func (c *Chain) fillAttestations(p *ProposeCtx) {
 			continue
 		}
 		p.B.Attestations = append(p.B.Attestations, c.makeAttestation(p, d, pa.Committee, pa.Bits))
+		if d.Target.Epoch < p.lastForkEpoch() {
+			p.Ops["att_pre_fork_target"]++
+		}
 		pa.Included++
 		delay := p.Slot - pa.Slot
 		p.Ops["att"]++
@@ -1079,6 +1105,7 @@ func (c *Chain) Propose(s common.Slot) (bool, error) {
 	if c.Scenario != nil && c.Scenario.BeforeBlock != nil {
 		c.Scenario.BeforeBlock(c, p)
 	}
+	c.syncBoundaryOps(p)
 	c.defaultOps(p)
 	c.fillAttestations(p)
 	if fork >= Altair {
@@ -1264,6 +1291,34 @@ func (c *Chain) opsTag(p *ProposeCtx) string {
 		return "ops=-"
 	}
 	return "ops=" + strings.Join(parts, ",")
+}
+
+// syncBoundaryOps: an exit initiated now takes effect at epoch+1+MAX_SEED_LOOKAHEAD; when that is the first epoch of a sync
+// committee period (in an altair+ stretch) or the epoch after the altair fork epoch, the active set of the epoch the next sync
+// committee is drawn from differs from the current one. Done for the first few such epochs of every chain.
+func (c *Chain) syncBoundaryOps(p *ProposeCtx) {
+	sp := c.Spec
+	if c.syncTargetsDone == nil {
+		c.syncTargetsDone = map[common.Epoch]bool{}
+	}
+	if len(c.syncTargetsDone) >= 4 || uint64(sp.ALTAIR_FORK_EPOCH) >= uint64(c.Epochs) {
+		return
+	}
+	t := sp.ComputeActivationExitEpoch(p.Epoch)
+	f := sp.ALTAIR_FORK_EPOCH
+	isTarget := t == f+1 || t == f || (t%sp.EPOCHS_PER_SYNC_COMMITTEE_PERIOD == 0 && t >= f+1)
+	if !isTarget || c.syncTargetsDone[t] || uint64(t) >= uint64(c.Epochs) {
+		return
+	}
+	n := len(p.Flats)
+	for try := 0; try < 40; try++ {
+		v := common.ValidatorIndex(c.Rng.Intn(n))
+		if p.AddExit(v) || (try > 20 && p.AddProposerSlashing(v)) {
+			c.syncTargetsDone[t] = true
+			p.Ops["exit_timed_for_sync_boundary"]++
+			return
+		}
+	}
 }
 
 // defaultOps adds the scenario-independent background rate of operations.
